@@ -96,6 +96,7 @@ def check(run):
     n_events, samples = 0, []
     outcomes, classes, special = Counter(), Counter(), Counter()
     cells, special_cells, misc_cov = set(), set(), Counter()
+    tcs = {}
     distinct, distinct_inrange = set(), set()
     for events, why, r in out:
         run.add_tlc(r)
@@ -106,6 +107,7 @@ def check(run):
             o = ev["r"]["o"]
             outcomes["%s_p%d_%s_%s" % (ev["kind"], ev["i"], cls, o)] += 1
             classes[cls] += 1
+            tcs.setdefault(ev["kind"] + "_" + ev["fam"], set()).add(ev["tc"])
             if v is not None:
                 pc, pa = v["plan"] // 10000, (v["plan"] // 100) % 100
                 cells.add((ev["kind"], ev["i"], pc, pa))
@@ -149,6 +151,7 @@ def check(run):
         "special_float_cells_covered": len(special_cells), "special_float_cells_total": 4 * 2 * N_SPECIAL,
         "misc_references": dict(sorted(misc_cov.items())),
         "outcomes": dict(sorted(outcomes.items())),
+        "type_codes_per_kind_and_family": {k: sorted(v) for k, v in sorted(tcs.items())},
         "mc_states": m.distinct,
         "nltable_selfcheck": note,
         "samples": samples,
